@@ -35,8 +35,10 @@ if "SEEDED_TABLE" in lines:
 else:
     j = next(n for n, l in enumerate(lines) if l.startswith("| change | property given to the agent |"))
     end = j
-    while end < len(lines) and not lines[end].startswith("Three rounds:"):
+    while end < len(lines) and " rounds: round 1" not in lines[end]:
         end += 1
+    if end >= len(lines):
+        raise SystemExit("marker after the seeded table not found: DESIGN.md left untouched")
     lines = lines[:j] + seeded + [""] + lines[end:]
 (HERE / "DESIGN.md").write_text("\n".join(lines))
 print(len(fixed), "fixed,", len(opened), "open review findings;", len(seeded), "lines in the seeded table")
